@@ -790,8 +790,14 @@ class Verifier:
             for pname, sort in spec.args.items():
                 try:
                     si = self.factory.make(sort, pname)
-                except PyRaise:
-                    raise PathEnd()  # constructor of an input rejects these values: not an input
+                except PyRaise as pr:
+                    # a constructor of an input rejecting its arguments (ValueError and the like) means "not an
+                    # input"; anything else (AttributeError on an opaque token, IndexError ...) means the input
+                    # shape of the contract no longer fits the code, and says so instead of losing the case silently
+                    ename = getattr(getattr(pr.exc, 'cls', None), 'name', '')
+                    if ename in ('ValueError', 'TypeError', 'AssertionError', 'RuntimeError', 'NotImplementedError'):
+                        raise PathEnd()
+                    raise Unsupported(f'building the input {pname!r} raised {pr.exc!r}')
                 st.inputs[pname] = si
                 byname[pname] = si.value
                 if pname in ghost:
